@@ -80,6 +80,11 @@ def body(desc, ctx):
             ext[:nvr] = ext[:nvr][::-1]
             derived.append(('external_layout', cls(m.doflocs.copy(), ext.copy())))
             derived.append(('external_layout_sorted', cls(m.doflocs.copy(), ext.copy(), sort_t=True)))
+        if desc['cls'].endswith('1') and m.nelements <= 12:
+            # the parts of m @ n share one point array: the first ends with, the second starts with vertex numbers it does not use
+            parts = m @ m.translated(tuple([float(np.ptp(m.p[0])) + 1.0] + [0.0] * (m.dim() - 1)))
+            derived.append(('matmul_first_part', parts[0]))
+            derived.append(('matmul_second_part', parts[1]))
         derived.append(('translated', m.translated(tuple([0.5] * m.dim()))))
         derived.append(('tagged', m.with_boundaries({'b': m.boundary_facets()[:1]})))
         if desc['cls'].endswith('1') and m.nelements > 1:
@@ -101,7 +106,8 @@ def tables(desc, ctx, m, phase, renumber=True):
     nc = m.nelements
     d = m.dim()
     nv = m.nvertices
-    if nv != len(T.vertices) or T.vertices != list(range(nv)):
+    spare = 'matmul' in phase            # parts of m @ n: vertex numbers no cell uses are allowed there (nvertices = max + 1)
+    if (nv != len(T.vertices) or T.vertices != list(range(nv))) and not (spare and T.vertices and max(T.vertices) == nv - 1):
         ctx.fail('nvertices', f'{nv} vs {len(T.vertices)}', **sig)
     # ------------------------------------------------------------------ facets
     facets = m.facets
